@@ -15,6 +15,9 @@ Streams
                an exception other than ValueError, or an accepted graph that is not the one the text
                describes (independent token-level parser below), is a failing input
   random-text  random texts over the alphabet of the formats
+  labels       hand-written dot and gml files whose node labels are not 1..n (gaps, any order, ten or more, leading zeros,
+               non-numeric names): pydot / networkx parse the file (oracle), cnfgen's own step after them (int() relabelling of
+               dot labels, label sorting, from_networkx) is the model gio_dot_normalize / gio_from_nx / gio_bip_from_nx
   bad-format   formats that are not valid for the graph type
   cli          graph argument "<format> <file>", "<file>" (extension) and "save" of the command line
 """
@@ -22,6 +25,7 @@ import io
 import itertools
 import os
 import re
+import signal
 import tempfile
 
 from lib import cmd, outcome, is_error, import_impl, Sym
@@ -32,10 +36,12 @@ META = dict(
     category='proof',
     text='Machine-checked theorems state, for every graph of each type and every name without line breaks, that the text the model '
          'writes in kthlist, dimacs and matrix format is read back to the same vertex count, left/right split and edge set, that '
-         'every accepted text describes the returned graph, and that a dag is accepted exactly when all edges increase; the faithful '
-         'model reproduces four defects (_refuted witnesses). The model is tied to the code by comparing written texts character by '
+         'every accepted text describes the returned graph, that every reader answers a graph or ValueError on EVERY text, and that a '
+         'dag is accepted exactly when all edges increase; the model follows the current code, the four repaired defects are kept as '
+         '_as_found_refuted witnesses on the model of the code as found. The model is tied to the code by comparing written texts character by '
          'character and reader verdicts (graph or exception class) on valid, mutated and random texts. gml/dot: networkx and pydot '
-         'are an unmodelled oracle; only the label sorting + from_networkx step is modelled and the round trip is checked at run time.',
+         'are an unmodelled oracle; only cnfgen\'s own step after them (int() relabelling of dot labels, label sorting, from_networkx) is '
+         'modelled, with an identity theorem for every size, and the round trip is checked at run time.',
     note='Trusted: Coq kernel, extraction, OCaml driver, the harness, networkx/pydot. The model is hand-written; agreement with the '
          'code is checked only on the inputs the run enumerates. Texts are restricted to latin-1; int() beyond 4300 digits not modelled.',
     design_ref='5/C14',
@@ -80,13 +86,29 @@ def impl_write(G, g, ty, fmt):
     return out.getvalue()
 
 
-def impl_read(G, text, ty, fmt):
-    """('ok', canon) | ('exc', class name, message)"""
+class ReaderTimeout(BaseException):
+    pass
+
+
+def _on_alarm(signum, frame):
+    raise ReaderTimeout()
+
+
+def impl_read(G, text, ty, fmt, limit=60):
+    """('ok', canon) | ('exc', class name, message); a reader that does not return within `limit` seconds is
+    reported as the exception class 'Timeout' (a failing input of its own) instead of hanging the check"""
+    old = signal.signal(signal.SIGALRM, _on_alarm)
+    signal.alarm(limit)
     try:
         g = G.readGraph(io.StringIO(text), ty, fmt)
+        return ('ok', canon(g))
+    except ReaderTimeout:
+        return ('exc', 'Timeout', 'readGraph did not return within %d s' % limit)
     except Exception as e:  # noqa
         return ('exc', type(e).__name__, str(e)[:160])
-    return ('ok', canon(g))
+    finally:
+        signal.alarm(0)
+        signal.signal(signal.SIGALRM, old)
 
 
 def model_outcome(rep):
@@ -263,7 +285,8 @@ def mutate(rng, text, fmt, n_hint):
     lines = text.split('\n')
     body = [i for i, l in enumerate(lines) if l.strip()]
     kind = rng.choice(['drop-token', 'junk-token', 'wrong-count', 'out-of-range', 'blank-line', 'comment-line',
-                       'truncate', 'dup-line', 'swap-lines', 'crlf', 'ws-line', 'glue'])
+                       'truncate', 'dup-line', 'swap-lines', 'crlf', 'ws-line', 'glue',
+                       'comment-odd', 'mixed-eol', 'big-number', 'dup-edge', 'self-loop'])
 
     def pick_line(pred=lambda l: True):
         c = [i for i in body if pred(lines[i])]
@@ -337,6 +360,84 @@ def mutate(rng, text, fmt, n_hint):
         i = pick_line()
         if i is not None and i + 1 < len(lines):
             lines[i] = lines[i] + rng.choice([' ', '']) + lines.pop(i + 1)
+    elif kind == 'comment-odd':
+        # comments where a reader may not expect them: between rows, looking like data, at the end of a data line
+        how = rng.choice(['data-like', 'data-like', 'inline', 'before-size', 'last'])
+        mark = '#' if fmt == 'matrix' else 'c'
+        if how == 'inline':
+            i = pick_line()
+            if i is not None:
+                lines[i] = lines[i] + rng.choice([' ', '\t', '']) + mark + rng.choice(['', ' x', ' 1 2'])
+        else:
+            c = mark + rng.choice([' 1 : 2 0', ' p edge 3 2', ' e 1 2', ' 3', ' 0 1 0', '\t', mark, ':', ' c', ' ' + str(n_hint)])
+            pos = {'data-like': rng.randrange(len(lines) + 1), 'before-size': 0, 'last': len(lines)}[how]
+            lines.insert(pos, c)
+    elif kind == 'mixed-eol':
+        # some lines end with \r\n, some with \n, a lone \r inside a line, a line made of \r only
+        out = []
+        for l in lines:
+            r = rng.random()
+            out.append(l + '\r' if r < 0.4 else (l.replace(' ', ' \r', 1) if r < 0.5 else l))
+        if rng.random() < 0.3:
+            out.insert(rng.randrange(len(out) + 1), '\r')
+        return kind, '\n'.join(out)
+    elif kind == 'big-number':
+        # a vertex number (or the declared size) far beyond the graph; sizes stay small enough to be allocated
+        # (the readers allocate / loop over the declared size: "p edge 10**12 0" needs terabytes and the matrix
+        #  "10**18 0" loops for ever; such sizes are a resource question, not a parse question, and are not generated)
+        i = pick_line(lambda l: not l.startswith('c') and not l.startswith('#'))
+        if i is None or (fmt == 'matrix' and body and i == body[0]):
+            return kind, text
+        t = lines[i].split(' ')
+        nums = [k for k, x in enumerate(t) if x.isdigit()]
+        if nums:
+            k = rng.choice(nums)
+            is_size = (fmt == 'kthlist' and ':' not in lines[i]) or (fmt == 'dimacs' and lines[i].startswith('p') and k == 2)
+            big = rng.choice([10 ** 18 + 7, 2 ** 64, 10 ** 30, 123456789012345678901234567890])
+            t[k] = str(rng.choice([20000, 65536, 99999]) if is_size else big)
+        lines[i] = ' '.join(t)
+    elif kind == 'dup-edge':
+        # the same edge twice (dimacs: the edge count is adjusted half of the time; kthlist: a neighbour repeated in a row)
+        if fmt == 'dimacs':
+            i = pick_line(lambda l: l.startswith('e'))
+            if i is None:
+                return kind, text
+            t = lines[i].split(' ')
+            lines.insert(rng.randrange(i, len(lines) + 1), lines[i] if rng.random() < 0.5 or len(t) != 3 else 'e %s %s' % (t[2], t[1]))
+            if rng.random() < 0.5:
+                for j, l in enumerate(lines):
+                    tp = l.split(' ')
+                    if l.startswith('p') and len(tp) == 4 and tp[3].isdigit():
+                        lines[j] = ' '.join(tp[:3] + [str(int(tp[3]) + 1)])
+        elif fmt == 'kthlist':
+            i = pick_line(lambda l: ':' in l and len(l.split(' ')) > 3)
+            if i is None:
+                return kind, text
+            t = lines[i].split(' ')
+            t.insert(rng.randrange(2, len(t)), rng.choice(t[2:-1]))
+            lines[i] = ' '.join(t)
+        else:
+            return 'dup-line', '\n'.join(lines[:1] + lines)
+    elif kind == 'self-loop':
+        # an edge from a vertex to itself (simple: refused; digraph: kept; dag: refused; bipartite kthlist: refused)
+        if fmt == 'dimacs':
+            v = str(rng.randint(1, max(1, n_hint)))
+            lines.insert(rng.randrange(1, len(lines) + 1) if lines else 0, 'e %s %s' % (v, v))
+            if rng.random() < 0.7:
+                for j, l in enumerate(lines):
+                    tp = l.split(' ')
+                    if l.startswith('p') and len(tp) == 4 and tp[3].isdigit():
+                        lines[j] = ' '.join(tp[:3] + [str(int(tp[3]) + 1)])
+        elif fmt == 'kthlist':
+            i = pick_line(lambda l: ':' in l and not l.startswith('c'))
+            if i is None:
+                return kind, text
+            t = lines[i].split(' ')
+            if t and t[0].isdigit():
+                t.insert(rng.randrange(2, max(3, len(t))), t[0])
+            lines[i] = ' '.join(t)
+        else:
+            return kind, text
     return kind, '\n'.join(lines)
 
 
@@ -401,21 +502,75 @@ def latin1(s):
     return all(ord(c) < 256 for c in s)
 
 
+SIZE_LIMIT = 200000
+
+
+def huge_declared_size(text, fmt):
+    """the readers allocate (Graph, DirectedGraph) or loop over (matrix) the DECLARED number of vertices: a 9-byte file
+    '59225725\n' needs gigabytes and minutes.  That is a resource question, outside the property; such texts are not run."""
+    def num(tok):
+        try:
+            return int(tok)
+        except ValueError:
+            return None
+    try:
+        if fmt == 'kthlist':
+            for ln in text.split('\n'):
+                if ln[:1] != 'c' and ':' not in ln:
+                    v = num(ln.strip())
+                    if v is not None and v > SIZE_LIMIT:
+                        return True
+        elif fmt == 'dimacs':
+            for ln in text.split('\n'):
+                t = ln.split()
+                if t and t[0][0] == 'p' and len(t) >= 3:
+                    v = num(t[2])
+                    if v is not None and v > SIZE_LIMIT:
+                        return True
+        else:
+            toks = []
+            for ln in text.split('\n'):
+                t = ln.split()
+                if t and t[0][0] != '#':
+                    toks += t
+                if len(toks) >= 2:
+                    break
+            v = [num(x) for x in toks[:2]]
+            if any(x is not None and x > SIZE_LIMIT for x in v):
+                return True
+            if len(v) == 2 and None not in v and v[0] * v[1] > 10 * SIZE_LIMIT:
+                return True
+    except Exception:  # noqa
+        return False
+    return False
+
+
 # --------------------------------------------------------------------------
 # classification of a reader case
 # --------------------------------------------------------------------------
-def classify_reader(ctx, stream, text, ty, fmt, got, mod, extra=None):
-    """compare the verdict of cnfgen (got) with the model's (mod); report failing inputs of the property"""
+def verdict_eq(a, b, names=True):
+    return a[0] == b[0] and (same_graph(a[1], b[1], names) if a[0] == 'ok' else a[1] == b[1])
+
+
+def classify_reader(ctx, stream, text, ty, fmt, got, mod, extra=None, af=None):
+    """compare the verdict of cnfgen (got) with the model of the CURRENT code (mod); report failing inputs of the
+    property.  af: verdict of the model of the code as found (before the repairs of D6, D7, D8); an implementation
+    that sides with it against the current model has lost a repair: the violation carries the site/class of the
+    old finding (entries with status 'fixed' suppress nothing)."""
     inp = dict(text=text, graph_type=ty, format=fmt)
     if extra:
         inp.update(extra)
     site = '%s-reader' % fmt
     bsite = site + ('-bipartite' if (fmt == 'kthlist' and ty == 'bipartite') else '')
+    rec = dict(input=inp, implementation=list(got), model=list(mod))
+    if af is not None:
+        rec['model_as_found'] = list(af)
+        rec['agrees_with_code_as_found'] = (not verdict_eq(af, mod)) and verdict_eq(got, dag_filter(ty, af))
     # 1. the property itself, on the implementation alone
     if got[0] == 'exc' and got[1] != 'ValueError':
         ctx.disagreements_checked += 1
         ctx.violation('counterexample', 'readGraph raised %s (not ValueError) on a %s text' % (got[1], fmt),
-                      dict(input=inp, implementation=list(got), model=list(mod)), True, site=site, cls='raises-' + got[1])
+                      rec, True, site=site, cls='raises-' + got[1])
         return
     if got[0] == 'ok' and not consistent(text, ty, fmt, got[1]):
         ctx.disagreements_checked += 1
@@ -425,38 +580,24 @@ def classify_reader(ctx, stream, text, ty, fmt, got, mod, extra=None):
             lefts = kth_lefts(text)
             if len(set(lefts)) < len(lefts):
                 cls = 'duplicate-left-vertex'
+        rec['described'] = [d[0], d[1], sorted(d[2])] if d else None
         ctx.violation('counterexample', 'readGraph accepted a %s text but returned a graph that is not the one the text describes' % fmt,
-                      dict(input=inp, implementation=list(got), described=[d[0], d[1], sorted(d[2])] if d else None, model=list(mod)),
-                      True, site=bsite, cls=cls)
+                      rec, True, site=bsite, cls=cls)
         return
-    # 2. correspondence with the model
-    if mod[0] == 'exc' and mod[1] != 'ValueError':
-        # the faithful model reproduces a known crash; the implementation now answers ValueError: repaired
-        if got[0] == 'exc' and got[1] == 'ValueError':
-            ctx.tally('repaired-defect-seen', site + ':' + mod[1])
-            return
-    if mod == ('exc', 'IndexError') and fmt == 'dimacs' and got[0] == 'ok':
-        # repaired reader that skips blank lines: must agree with the model on the text without them
-        t2 = ''.join(l for l in text.splitlines(True) if l.strip())
-        rep = ctx.model.call(Sym('gio_read'), True, Sym(ty), Sym(fmt), t2)
-        if not is_error(rep) and model_outcome(rep) == (got[0], got[1]):
-            ctx.tally('repaired-defect-seen', site + ':blank-lines-skipped')
-            return
-    if mod[0] == 'ok' and not consistent(text, ty, fmt, mod[1]) and got[0] == 'exc' and got[1] == 'ValueError':
-        ctx.tally('repaired-defect-seen', site + ':inconsistent-accept')
+    # 2. the model of the current code is demanded: no tolerance
+    if verdict_eq(got, mod):
         return
-    if fmt == 'kthlist' and ty == 'bipartite' and mod[0] == 'ok' and got[0] == 'exc' and got[1] == 'ValueError':
-        # documented behaviour (left vertices in increasing order): the model keeps the dead `previous` test (D8)
+    ctx.disagreements_checked += 1
+    if fmt == 'kthlist' and ty == 'bipartite' and got[0] == 'ok' and mod == ('exc', 'ValueError'):
+        # a file the format forbids (left vertices must be listed once, in increasing order) is accepted: D8 is back
         lefts = kth_lefts(text)
         if any(a >= b for a, b in zip(lefts, lefts[1:])):
-            ctx.tally('repaired-defect-seen', bsite + ':order-enforced')
+            cls = 'duplicate-left-vertex' if len(set(lefts)) < len(lefts) else 'left-vertices-out-of-order'
+            ctx.violation('counterexample', 'readGraph accepted a bipartite kthlist whose left vertices are repeated or out of order (bad file not rejected)',
+                          rec, True, site=bsite, cls=cls)
             return
-    agree = (got[0] == mod[0]) and (same_graph(got[1], mod[1]) if got[0] == 'ok' else got[1] == mod[1])
-    if not agree:
-        ctx.disagreements_checked += 1
-        ctx.violation('correspondence', 'verdict of readGraph differs from the model (GraphIO.v); theorems C14_* no longer cover the code',
-                      dict(input=inp, implementation=list(got), model=list(mod), correspondence='GraphIO.v <-> readGraph/' + fmt),
-                      False, site=site, cls='verdict-differs')
+    ctx.violation('correspondence', 'verdict of readGraph differs from the model (GraphIO.v); theorems C14_* no longer cover the code',
+                  dict(rec, correspondence='GraphIO.v <-> readGraph/' + fmt), False, site=site, cls='verdict-differs')
 
 
 # --------------------------------------------------------------------------
@@ -526,11 +667,14 @@ def run(ctx):
                 reqs.append(cmd('gio_read', has_dot, Sym(ty), Sym(fmt), text) if latin1(text) else cmd('gt_print', 0))
             elif ty == 'bipartite':
                 nodes = [[str(i), 0] for i in range(1, cg[2] + 1)] + [[str(i), 1] for i in range(cg[2] + 1, cg[2] + cg[3] + 1)]
-                reqs.append(cmd('gio_bip_from_nx_str', cg[1], nodes, [[str(u), str(v + cg[2])] for u, v in cg[4]]))
+                bes = [[str(u), str(v + cg[2])] for u, v in cg[4]]
+                # gml: from_networkx on the labels as they are; dot: after the int() relabelling of readGraph
+                reqs.append(cmd('gio_bip_from_nx_str', cg[1], nodes, bes) if fmt == 'gml' else cmd('gio_dot_bip_norm', cg[1], nodes, bes))
                 reqs.append(cmd('gt_print', 0))
             else:
                 reqs.append(cmd('gio_' + fmt, [Sym(cg[0]), cg[1], cg[2], cg[3], cg[4]]))
-                reqs.append(cmd('gt_print', 0))
+                # the label rule of the code as found (D9), to recognise a lost repair
+                reqs.append(cmd('gio_dot_as_found', [Sym(cg[0]), cg[1], cg[2], cg[3], cg[4]]) if fmt == 'dot' else cmd('gt_print', 0))
     reps = ctx.model.batch(reqs)
     for k, (ty, fmt, cg, text, back) in enumerate(jobs):
         r1, r2 = reps[2 * k], reps[2 * k + 1]
@@ -545,12 +689,13 @@ def run(ctx):
             ctx.disagreements_checked += 1
             big = (cg[2] + cg[3]) >= 10
             cls = 'renumbered-n>=10' if (fmt == 'dot' and big) else ('raises-' + back[1] if back[0] == 'exc' else 'graph-changed')
-            explained = None
-            if fmt in ('gml', 'dot') and ty != 'bipartite' and r1 is not None and r1 != 'none':
-                explained = (dag_filter(ty, model_outcome(r1[1]))[:1] == back[:1] and
-                             (back[0] != 'ok' or same_graph(model_outcome(r1[1])[1], back[1], names=False)))
+            as_found = None
+            if fmt == 'dot' and ty != 'bipartite' and r2 is not None and r2 != 'none':
+                # does the implementation follow the label rule of the code as found (strings sorted as strings, D9)?
+                af = dag_filter(ty, model_outcome(r2[1]))
+                as_found = verdict_eq(af, back, names=False)
             ctx.violation('counterexample', 'write then read in %s format does not return the same %s graph' % (fmt, ty),
-                          dict(input=inp, read_back=list(back), explained_by_model_of_label_sorting=explained), True,
+                          dict(input=inp, read_back=list(back), agrees_with_label_sorting_as_found=as_found), True,
                           site=fmt + '-roundtrip', cls=cls)
         if fmt in INHOUSE:
             # (b) same text
@@ -562,22 +707,18 @@ def run(ctx):
             # (c) same reader verdict
             if latin1(text):
                 mod = model_outcome(r2)
-                if not (back[0] == mod[0] and (same_graph(back[1], mod[1]) if back[0] == 'ok' else back[1] == mod[1])):
+                if not verdict_eq(back, mod):
                     ctx.disagreements_checked += 1
                     ctx.violation('correspondence', 'readGraph on a written file differs from the model reader',
                                   dict(input=inp, implementation=list(back), model=list(mod)), False, site=fmt + '-reader', cls='verdict-differs')
         else:
             # differential on cnfgen's own step: sorted labels + from_networkx
-            if ty == 'bipartite':
+            if ty == 'bipartite' and fmt == 'gml':
                 mod = model_outcome(r1)
             else:
                 mod = ('exc', 'not-a-graph') if (r1 is None or r1 == 'none') else dag_filter(ty, model_outcome(r1[1]))
-            if back[0] == 'ok' and same_graph(back[1], cg, names=False):
-                # the round trip is the identity (documented behaviour); the faithful model predicts a renumbering
-                # only for dot files with ten or more vertices (D9): a repaired reader agrees with the spec variant
-                if not (mod[0] == 'ok' and same_graph(mod[1], cg, names=False)):
-                    ctx.tally('repaired-defect-seen', fmt + '-roundtrip:label-order')
-            elif not (back[0] == mod[0] and (same_graph(back[1], mod[1], names=False) if back[0] == 'ok' else back[1] == mod[1])):
+            # the model of the current code (numeric labels sorted as numbers) is demanded
+            if not verdict_eq(back, mod, names=False):
                 ctx.disagreements_checked += 1
                 ctx.violation('correspondence', 'graph read back from %s differs from the model of label sorting + from_networkx' % fmt,
                               dict(input=inp, implementation=list(back), model=list(mod)), False, site=fmt + '-roundtrip', cls='model-differs')
@@ -614,20 +755,51 @@ def run(ctx):
                        ('dag', 'dimacs', 'p edge 2 1\ne 1 2\n'), ('dag', 'dimacs', 'p edge 2 1\ne 1 1\n'),
                        ('simple', 'dimacs', ''), ('bipartite', 'matrix', ''), ('bipartite', 'matrix', '0 0'), ('bipartite', 'matrix', '2 0\n\n\n'),
                        ('bipartite', 'matrix', '1 2 1 0'), ('bipartite', 'matrix', '1 2\n1 0\n# end\n'), ('bipartite', 'matrix', '1 2\n1 0\n1'),
-                       ('bipartite', 'matrix', '1 2\n1 2\n'), ('simple', 'kthlist', '2\n2 : 1 0\n2\n'), ('simple', 'kthlist', '1 : 0\n1\n')]:
+                       ('bipartite', 'matrix', '1 2\n1 2\n'), ('simple', 'kthlist', '2\n2 : 1 0\n2\n'), ('simple', 'kthlist', '1 : 0\n1\n'),
+                       # self loops, for each type
+                       ('simple', 'dimacs', 'p edge 2 1\ne 1 1\n'), ('digraph', 'dimacs', 'p edge 2 1\ne 1 1\n'),
+                       ('simple', 'kthlist', '2\n1 : 1 0\n'), ('digraph', 'kthlist', '2\n1 : 1 0\n'), ('dag', 'kthlist', '2\n1 : 1 0\n'),
+                       ('bipartite', 'kthlist', '2\n1 : 1 0\n'), ('bipartite', 'kthlist', '2\n1 : 2 0\n2 : 0\n'),
+                       # duplicate edges
+                       ('simple', 'dimacs', 'p edge 2 2\ne 1 2\ne 2 1\n'), ('digraph', 'dimacs', 'p edge 2 2\ne 1 2\ne 1 2\n'),
+                       ('simple', 'dimacs', 'p edge 2 1\ne 1 2\ne 1 2\n'), ('simple', 'kthlist', '3\n3 : 1 1 2 0\n'),
+                       ('simple', 'kthlist', '2\n1 : 2 0\n2 : 1 0\n'), ('bipartite', 'kthlist', '3\n1 : 2 2 3 0\n'),
+                       # very large vertex numbers; large but allocatable sizes
+                       ('simple', 'dimacs', 'p edge 3 1\ne 1 123456789012345678901234567890\n'),
+                       ('simple', 'dimacs', 'p edge 100000 1\ne 1 100000\n'), ('simple', 'kthlist', '100000\n100000 : 1 0\n'),
+                       ('digraph', 'kthlist', '3\n18446744073709551616 : 1 0\n'), ('bipartite', 'kthlist', '1000000\n999999 : 1000000 0\n'),
+                       ('bipartite', 'kthlist', '4\n1 : 340282366920938463463374607431768211456 0\n'),
+                       ('bipartite', 'matrix', '0 100000\n'), ('bipartite', 'matrix', '100000 0\n'), ('bipartite', 'matrix', '1 1\n18446744073709551617\n'),
+                       ('simple', 'kthlist', '-0\n'), ('simple', 'kthlist', '+2\n2 : +1 0\n'), ('simple', 'dimacs', 'p edge 0_2 0_1\ne 1 2\n'),
+                       # comments in odd places, line ends
+                       ('simple', 'kthlist', 'c a\nc b\n2\nc 1 : 2 0\n2 : 1 0\nc\n'), ('simple', 'kthlist', '2\n2 : 1 0 c x\n'),
+                       ('simple', 'kthlist', ' c\n2\n'), ('simple', 'dimacs', 'c\np edge 2 1\nc e 1 2\ne 1 2\nc\n'),
+                       ('simple', 'dimacs', 'p edge 2 1 c\ne 1 2\n'), ('simple', 'dimacs', ' c x\np edge 2 1\n  e 1 2\n'),
+                       ('bipartite', 'matrix', '# a\n1 2\n# b\n1 0\n#\n'), ('bipartite', 'matrix', '1 2 # x\n1 0\n'),
+                       ('bipartite', 'matrix', '1 2\n1 # x\n0\n'), ('bipartite', 'matrix', ' #\n1 1\n1\n'),
+                       ('simple', 'kthlist', '2\r\n2 : 1 0\r\n'), ('simple', 'dimacs', 'p edge 2 1\r\n\r\ne 1 2\r\n'),
+                       ('bipartite', 'matrix', '1 2\r\n1 0\r\n\r\n'), ('simple', 'kthlist', '2\r2 : 1 0\r'), ('simple', 'dimacs', 'p edge 2 1\re 1 2\r'),
+                       ('bipartite', 'kthlist', '3\r\n1 : 2 3 0\r\n\r\n')]:
         cases.append(('fixed-text', ty, fmt, t, None))
+    nbefore = len(cases)
+    cases = [c for c in cases if not huge_declared_size(c[3], c[2])]
+    ctx.tally('texts not run', 'huge declared size: %d' % (nbefore - len(cases)))
     reqs = [cmd('gio_read', has_dot, Sym(ty), Sym(fmt), t) for (_s, ty, fmt, t, _e) in cases]
     reps = ctx.model.batch(reqs)
-    for (stream, ty, fmt, t, extra), rep in zip(cases, reps):
+    reps_af = ctx.model.batch([cmd('gio_read_as_found', has_dot, Sym(ty), Sym(fmt), t) for (_s, ty, fmt, t, _e) in cases])
+    for (stream, ty, fmt, t, extra), rep, rep_af in zip(cases, reps, reps_af):
         ctx.count(stream, (ty, fmt, t), len(t) > 0, sample=dict(graph_type=ty, format=fmt, text=t[:200], **(extra or {})))
-        if is_error(rep):
-            ctx.violation('correspondence', 'model error', dict(input=dict(text=t, graph_type=ty, format=fmt), model=rep), False,
+        if is_error(rep) or is_error(rep_af):
+            ctx.violation('correspondence', 'model error', dict(input=dict(text=t, graph_type=ty, format=fmt), model=[rep, rep_af]), False,
                           site='model-error', cls=stream)
             continue
         got = impl_read(G, t, ty, fmt)
         mod = model_outcome(rep)
+        af = model_outcome(rep_af)
         ctx.tally(stream + ' verdict', fmt + ':' + (got[1] if got[0] == 'exc' else 'graph'))
-        classify_reader(ctx, stream, t, ty, fmt, got, mod, extra)
+        if not verdict_eq(mod, af):
+            ctx.tally('texts on which the repairs matter', '%s:%s -> %s' % (fmt, af[1] if af[0] == 'exc' else 'graph', mod[1] if mod[0] == 'exc' else 'graph'))
+        classify_reader(ctx, stream, t, ty, fmt, got, mod, extra, af)
 
     # ---------------- formats that are not valid for the type ----------------
     g0 = {ty: mk_graph(G, ty, 2, 2 if ty == 'bipartite' else 0, [(1, 2)], 'G') for ty in TYPES}
@@ -662,8 +834,200 @@ def run(ctx):
                               dict(input=dict(graph_type=ty, format=fmt), read=[str(x) for x in r], write=[str(x) for x in w[:2]]), True,
                               site='format-table', cls='unknown-accepted')
 
+    run_labels(ctx, G, quick, has_dot)
     run_cli(ctx, G, quick, has_dot)
     ctx.exhaustive = False
+
+
+# --------------------------------------------------------------------------
+def gen_labels(rng, fmt, k):
+    """k distinct node labels (strings for dot, integers for gml) and the name of the mix"""
+    if fmt == 'gml':
+        mode = rng.choice(['contiguous-from-0', 'gaps', 'gaps', 'large', 'negative'])
+        pool = {'contiguous-from-0': range(0, k), 'gaps': range(0, 60), 'large': range(10 ** 9, 10 ** 9 + 50), 'negative': range(-20, 20)}[mode]
+        labs = rng.sample(list(pool), k)
+        if mode == 'contiguous-from-0' and rng.random() < 0.5:
+            labs.sort()
+        return mode, labs
+    mode = rng.choice(['ints', 'ints', 'ints-wide', 'leading-zero', 'alpha', 'mixed', 'float', 'quoted'])
+    k = min(k, {'quoted': 9, 'leading-zero': 14}.get(mode, 15))     # size of the smallest pool below
+    if mode == 'ints':
+        labs = [str(x) for x in rng.sample(range(0, 30), k)]
+    elif mode == 'ints-wide':
+        labs = [str(x) for x in rng.sample([1, 2, 9, 10, 11, 19, 20, 99, 100, 101, 1000, 12345678901234567890, 5, 50, 500], k)]
+    elif mode == 'leading-zero':
+        labs = [str(x) for x in rng.sample(range(1, 15), k)]
+        labs = [('0' * rng.randint(1, 2) + l) if rng.random() < 0.4 else l for l in labs]
+        if k >= 2 and rng.random() < 0.3:
+            labs[0] = '0' + labs[1].lstrip('0')       # the same integer twice: networkx merges the two nodes
+            if labs[0] == labs[1]:
+                labs[0] = '00' + labs[1]
+    elif mode == 'alpha':
+        labs = rng.sample(['a', 'b', 'c', 'n1', 'n2', 'n9', 'n10', 'n11', 'A', 'B', 'x_1', 'x_10', 'x_2', 'zz', 'Z'], k)
+    elif mode == 'mixed':
+        labs = [str(x) for x in rng.sample(range(1, 25), k)]
+        labs[rng.randrange(k)] = rng.choice(['a', 'n3', 'B', 'x_1'])
+    elif mode == 'float':
+        labs = [str(x) for x in rng.sample(range(1, 25), k)]
+        labs[rng.randrange(k)] = rng.choice(['1.5', '2.0', '10.25'])
+    else:
+        labs = ['"%s"' % x for x in rng.sample(['1', '2', '10', '1 0', 'x y', '3', ' 4', '5 ', 'a'], k)]
+    return mode, labs
+
+
+def label_file(rng, ty, fmt):
+    """a hand-written dot / gml file; returns (mix, text)"""
+    k = rng.randint(1, 9) if rng.random() < 0.6 else rng.randint(10, 14)
+    mode, labs = gen_labels(rng, fmt, k)
+    k = len(labs)
+    directed = ty in ('digraph', 'dag')
+    if ty == 'bipartite':
+        side = [0 if rng.random() < 0.5 else 1 for _ in labs]
+        if rng.random() < 0.6:          # left nodes first, as the writers do; else interleaved
+            order = sorted(range(k), key=lambda i: side[i])
+            labs, side = [labs[i] for i in order], [side[i] for i in order]
+        left = [l for l, c in zip(labs, side) if c == 0]
+        right = [l for l, c in zip(labs, side) if c == 1]
+        edges = []
+        for _ in range(rng.randint(0, 2 * k)):
+            if left and right and rng.random() < 0.93:
+                u, v = rng.choice(left), rng.choice(right)
+                edges.append((u, v) if rng.random() < 0.8 else (v, u))
+            elif len(labs) >= 2:
+                edges.append(tuple(rng.sample(labs, 2)))     # may lie inside one side: refused
+    else:
+        side = None
+        edges = []
+        for _ in range(rng.randint(0, 2 * k)):
+            u, v = rng.choice(labs), rng.choice(labs)
+            if u == v and rng.random() < 0.8:
+                continue
+            if ty == 'dag' and rng.random() < 0.8:
+                # mostly increasing in the order the reader is expected to give the labels
+                strs = [str(l).strip('"') for l in labs]
+                numeric = all(x.lstrip('-').isdigit() for x in strs)
+                key = (lambda x: int(str(x).strip('"'))) if numeric else (lambda x: str(x).strip('"'))
+                u, v = sorted([u, v], key=key)
+                if u == v:
+                    continue
+            edges.append((u, v))
+    if fmt == 'dot':
+        strict = rng.random() < 0.7
+        arrow = '->' if directed else '--'
+        out = ['%s%s %s {' % ('strict ' if strict else '', 'digraph' if directed else 'graph', rng.choice(['G', '"a name"', 'g1']))]
+        decl = ['%s%s;' % (l, '' if side is None else ' [bipartite=%d]' % side[i]) for i, l in enumerate(labs)]
+        eds = ['%s %s %s;' % (u, arrow, v) for u, v in edges]
+        body = decl + eds
+        if side is None and rng.random() < 0.3:
+            body = eds + decl                     # nodes first met in an edge keep that position in networkx
+        out += ['  ' + x for x in body] + ['}']
+        return mode, '\n'.join(out) + '\n'
+    out = ['graph [', '  name "G"', '  directed %d' % (1 if directed else 0)]
+    for i, l in enumerate(labs):
+        out.append('  node [ id %d label "v%d"%s ]' % (l, i, '' if side is None else ' bipartite %d' % side[i]))
+    seen = set()
+    for u, v in edges:
+        kk = (u, v) if directed else (min(u, v), max(u, v))
+        if kk in seen:
+            continue                               # a repeated edge needs `multigraph 1` in GML
+        seen.add(kk)
+        out.append('  edge [ source %d target %d ]' % (u, v))
+    out.append(']')
+    return mode, '\n'.join(out) + '\n'
+
+
+def run_labels(ctx, G, quick, has_dot):
+    """cnfgen's own step after the dot / gml parsers, on labels that are not 1..n"""
+    import networkx
+    rng = ctx.rng
+    jobs, reqs = [], []
+    fmts = ['dot', 'gml'] if has_dot else ['gml']
+    for _ in range(90 if quick else 900):
+        ty = rng.choice(TYPES)
+        fmt = rng.choice(fmts)
+        mode, text = label_file(rng, ty, fmt)
+        ctx.tally('labels mix', '%s:%s' % (fmt, mode))
+        # the parser alone (oracle): node labels in networkx order, attributes, edges
+        try:
+            if fmt == 'dot':
+                import contextlib
+                with contextlib.redirect_stdout(io.StringIO()):
+                    P = networkx.nx_pydot.read_dot(io.StringIO(text))
+                if '\\n' in P:
+                    P.remove_node('\\n')
+            else:
+                P = networkx.read_gml((l.encode('ascii') for l in io.StringIO(text)), label='id')
+        except Exception as e:  # noqa
+            P = None
+            perr = type(e).__name__
+        got = impl_read(G, text, ty, fmt)
+        inp = dict(text=text, graph_type=ty, format=fmt, labels=mode)
+        ctx.count('labels', (ty, fmt, text), True, sample=dict(graph_type=ty, format=fmt, labels=mode, text=text[:300]))
+        ctx.tally('labels verdict', fmt + ':' + (got[1] if got[0] == 'exc' else 'graph'))
+        if got[0] == 'exc' and got[1] != 'ValueError':
+            ctx.disagreements_checked += 1
+            ctx.violation('counterexample', 'readGraph raised %s (not ValueError) on a %s file' % (got[1], fmt),
+                          dict(input=inp, implementation=list(got)), True, site=fmt + '-reader', cls='raises-' + got[1])
+            continue
+        if P is None:
+            ctx.tally('labels skipped', 'parser raised ' + perr)
+            continue
+        nodes = list(P.nodes())
+        edges = [[u, v] for (u, v) in P.edges()]
+        if directed_mismatch(P, ty):
+            ctx.tally('labels skipped', 'graph kind of the file differs from the type')
+            continue
+        if ty == 'bipartite':
+            cols = [P.nodes[u].get('bipartite') for u in nodes]
+            if any(c not in ('0', '1', 0, 1) for c in cols):
+                ctx.tally('labels skipped', 'node without side')
+                continue
+            pairs = [[u, int(c)] for u, c in zip(nodes, cols)]
+            if fmt == 'dot':
+                reqs.append(cmd('gio_dot_bip_norm', P.name, pairs, edges))
+            else:
+                reqs.append(cmd('gio_bip_from_nx_int', P.name, pairs, edges))
+        elif fmt == 'dot':
+            reqs.append(cmd('gio_dot_norm', Sym(KIND[ty]), P.name, nodes, edges))
+            reqs.append(cmd('gio_dot_norm_as_found', Sym(KIND[ty]), P.name, nodes, edges))
+            jobs.append((inp, ty, fmt, got, 2))
+            continue
+        else:
+            reqs.append(cmd('gio_from_nx_int', Sym(KIND[ty]), P.name, nodes, edges))
+        jobs.append((inp, ty, fmt, got, 1))
+    reps = ctx.model.batch(reqs)
+    k = 0
+    for (inp, ty, fmt, got, n) in jobs:
+        mine = reps[k:k + n]
+        k += n
+        r = mine[0]
+        if is_error(r):
+            ctx.violation('correspondence', 'model error', dict(input=inp, model=r), False, site='model-error', cls='labels')
+            continue
+        if ty == 'bipartite' and fmt == 'gml':
+            mod = model_outcome(r)
+        elif r is None or r == 'none':
+            ctx.tally('labels skipped', 'outside the model (merged labels / dangling edge)')
+            continue
+        else:
+            mod = dag_filter(ty, model_outcome(r[1]))
+        if verdict_eq(got, mod, names=False):
+            continue
+        ctx.disagreements_checked += 1
+        rec = dict(input=inp, implementation=list(got), model=list(mod), correspondence='GraphIO.v gio_dot_normalize / gio_from_nx <-> readGraph/' + fmt)
+        if n == 2 and mine[1] not in (None, 'none') and not is_error(mine[1]):
+            af = dag_filter(ty, model_outcome(mine[1][1]))
+            if verdict_eq(got, af, names=False):
+                # numeric labels are sorted as strings again: D9
+                ctx.violation('counterexample', 'dot file with numeric labels: the vertices are numbered in the string order of the labels, not in their numeric order',
+                              dict(rec, model_as_found=list(af)), True, site='dot-roundtrip', cls='renumbered-n>=10')
+                continue
+        ctx.violation('correspondence', 'graph read from a %s file differs from the model of label normalisation + from_networkx' % fmt,
+                      rec, False, site=fmt + '-labels', cls='model-differs')
+
+
+def directed_mismatch(P, ty):
+    return P.is_directed() != (ty in ('digraph', 'dag'))
 
 
 # --------------------------------------------------------------------------
@@ -791,8 +1155,10 @@ def replay(ctx, rp):
     has_dot = G.has_dot_library()
     if 'text' in inp and fmt in INHOUSE:
         rep = ctx.model.call(Sym('gio_read'), has_dot, Sym(ty), Sym(fmt), inp['text'])
+        rep_af = ctx.model.call(Sym('gio_read_as_found'), has_dot, Sym(ty), Sym(fmt), inp['text'])
         ctx.count('replay', (ty, fmt, inp['text']), True, sample=inp)
-        classify_reader(ctx, 'replay', inp['text'], ty, fmt, impl_read(G, inp['text'], ty, fmt), model_outcome(rep))
+        classify_reader(ctx, 'replay', inp['text'], ty, fmt, impl_read(G, inp['text'], ty, fmt), model_outcome(rep),
+                        af=model_outcome(rep_af))
     if 'graph' in inp and fmt:
         cg = inp['graph']
         g = mk_graph(G, ty, cg[2], cg[3], [tuple(e) for e in cg[4]], cg[1])
